@@ -1167,12 +1167,36 @@ func runDiagSource(p *core.Program, r *core.Report, fns []*ssa.Function) {
 			}
 			r.OK(rule, construct, p.InsPos(slot), "make(len(entries)); diags[i] stored on every iteration from entries[i]")
 			// published: the slice and the URI
+			// the values that denote the slice: the make itself and, when the
+			// building function returns it on every path, the result of each
+			// call of that function inside pkg/lsp
+			aliases := []ssa.Value{ms}
+			returnsIt := fn.Signature.Results().Len() == 1
+			core.Instrs(fn, func(x ssa.Instruction) {
+				if ret, ok := x.(*ssa.Return); ok && (len(ret.Results) != 1 || resolveVal(ret.Results[0]) != ssa.Value(ms)) {
+					returnsIt = false
+				}
+			})
+			if returnsIt {
+				for _, f2 := range fns {
+					core.Instrs(f2, func(x ssa.Instruction) {
+						if c, ok := x.(*ssa.Call); ok && c.Call.StaticCallee() == fn {
+							aliases = append(aliases, c)
+						}
+					})
+				}
+			}
 			var pub *ssa.Alloc
-			for _, ref := range *ms.Referrers() {
-				if st, ok := ref.(*ssa.Store); ok && st.Val == ssa.Value(ms) {
-					if fa, ok := st.Addr.(*ssa.FieldAddr); ok {
-						if _, f := core.FieldName(fa); f == "Diagnostics" {
-							pub, _ = fa.X.(*ssa.Alloc)
+			for _, al := range aliases {
+				if al.Referrers() == nil {
+					continue
+				}
+				for _, ref := range *al.Referrers() {
+					if st, ok := ref.(*ssa.Store); ok && st.Val == al {
+						if fa, ok := st.Addr.(*ssa.FieldAddr); ok {
+							if _, f := core.FieldName(fa); f == "Diagnostics" {
+								pub, _ = fa.X.(*ssa.Alloc)
+							}
 						}
 					}
 				}
